@@ -95,7 +95,11 @@ func (e *xmlEncoder) Encode(writer io.Writer, node *CandidateNode) error {
 		return fmt.Errorf("cannot encode %v to XML - only maps can be encoded", node.Tag)
 	}
 
-	return encoder.EncodeToken(newLine)
+	if err := encoder.EncodeToken(newLine); err != nil {
+		return err
+	}
+	// the xml encoder buffers on its own unless the writer is a bufio.Writer already
+	return encoder.Flush()
 
 }
 
